@@ -4,13 +4,13 @@ import json, subprocess, sys
 
 AI = "abstract interpretation over go/ssa"
 claimed = {
- "C01": ("proof", AI + ": product automaton of the run comparator with a dpkg reference over lazily revealed input strings; weight table; Compare composition table", "3.C01",
-         "Sign-equivalence with a transliteration of dpkg's verrevcmp is decided for ALL pairs of strings over the version alphabet (unbounded length) by exploring the finite product of the two abstract machines; the weight table and Compare's lexicographic composition are decided exhaustively. Proof modulo the trusted base."),
- "C02": ("proof", AI + ": equivalence to a reference total preorder (same product), Compare composition table, sort adapter tables", "3.C02",
-         "Reflexivity, antisymmetry, transitivity and congruence are inherited from sign-equality with the reference order (a lexicographic order on canonical keys, hence a total preorder); the adapter methods are decided by interpretation with an oracle for Compare."),
+ "C01": ("proof", AI + ": product automaton of the run comparator with a dpkg reference over lazily revealed input strings (index cursors and suffix views); weight table; Compare composition table; bounded mode (exact pairs vs the reference) when the comparator leaves the tape model", "3.C01",
+         "Sign-equivalence with a transliteration of dpkg's verrevcmp is decided for ALL pairs of strings over the version alphabet (unbounded length) by exploring the finite product of the two abstract machines; the weight table and Compare's lexicographic composition are decided exhaustively. Proof modulo the trusted base. If a future comparator leaves the finite-state abstraction the check falls back to a bounded comparison and says so in the evidence."),
+ "C02": ("proof", AI + ": equivalence to a reference total preorder (same product as C01, same bounded mode), Compare composition table, sort adapter tables (Less on 100 concrete pairs)", "3.C02",
+         "Reflexivity, antisymmetry, transitivity and congruence are inherited from sign-equality with the reference order (a lexicographic order on canonical keys, hence a total preorder); the adapter methods are decided by interpretation."),
  "C03": ("other", AI + " of Parse / Unmarshal* / String / Marshal* on a generated family of version strings against a Policy 5.6.12 reference (accept/reject and fields), character predicates on every byte, reset of all fields, codec identity, render->parse round trip; GOARCH=386 load for the epoch width", "3.C03",
          "Accept/reject and the parsed fields, alphabets, reset, codecs and the render/parse round trip are decided on a family of strings generated from the grammar's token classes and the positions the parser distinguishes; strings outside the family are not decided."),
- "C04": ("other", AI + ": dependency.Parse explored on a lazily revealed input of unbounded length into a finite transition system; regular-language inclusion / emptiness against Policy 7.1 languages; token-effect events; error-discipline dataflow", "3.C04",
+ "C04": ("other", AI + ": dependency.Parse explored on a lazily revealed input of unbounded length into a finite transition system; regular-language inclusion / emptiness against Policy 7.1 languages; token-effect events; error-discipline dataflow; bounded mode (grammar words, malformed words and every short string, exact) when the parser leaves the model", "3.C04",
          "Acceptance of a conservative Policy grammar and rejection of twelve malformed classes are decided for inputs of every length on the extracted automaton; token hygiene (no blank inside a token, no empty token), the operator set, error propagation and totality are decided; exactness of the produced AST is not."),
  "C05": ("other", "field read/write sets over the SSA call trees, conversion scan, events of the parser transition system, " + AI + " of parse/render/parse on architecture names and on a generated family of fields", "3.C05",
          "Renderer field coverage, byte fidelity, and absence of stored-but-unrendered entries are universal; the architecture and field fixpoints are decided on exhaustive component combinations / a generated family."),
@@ -18,13 +18,13 @@ claimed = {
          "Complete decision tables of Is/IsWildcard/Matches/GetPossibilities/GetAllPossibilities/GetSubstvars/SatisfiedBy against the property's specification, exhaustive up to renaming."),
  "C11": ("other", AI + " of NewParagraphReader / NewDecoder / Signer over scenarios (plain/signed x four keyrings x every outcome of clearsign.Decode, io.ReadAll and CheckDetachedSignature), readers and byte slices carrying provenance", "3.C11",
          "Exactly the wrapper obligations that turn openpgp.CheckDetachedSignature's guarantee into the property are decided on every scenario path; the OpenPGP library is trusted."),
- "C12": ("other", AI + " of GetHash / Verifier / the hashing constructors / verifier.Close with opaque hash objects and interpreted package initialisers; type-level field/algorithm table; term rules on Hasher", "3.C12",
-         "Algorithm tables (incl. freshness of hash objects), verifier algorithm choice for every name x hash length, fan-out wiring, byte counting and Close verdict are decided; the digests themselves are the standard library's."),
- "C13": ("other", AI + " of LoadAr / Ar.Next / the header parser on a symbolic 60 byte header (opaque byte tokens, symbolic sizes, linear offsets)", "3.C13",
+ "C12": ("other", AI + " of GetHash / FileHash.Verifier and the verifier it returns / NewHasher and the hasher it returns / the hashing constructors / FileHashFromHasher through the public API, with hash objects as recording oracles and interpreted package initialisers; type-level field/algorithm table", "3.C12",
+         "Algorithm tables (incl. freshness of hash objects), verifier algorithm choice for every name x hash length, fan-out wiring, byte counting and the Close verdict are decided; the digests themselves are the standard library's."),
+ "C13": ("other", AI + " of LoadAr / Ar.Next / the header parser on a symbolic 60 byte header (opaque byte tokens, symbolic sizes, linear offsets), cross-checked (and replaced, when the reader leaves the symbolic model) by interpretation on 90 concrete archives against an ar(5) reference reader", "3.C13",
          "Column provenance of every entry field, name trimming, member reader placement, offset arithmetic, freshness, global and header magic, short reads are decided for every header; byte equality of the delivered data rests on io.SectionReader."),
  "C14": ("other", AI + " of the .deb loader on scripted archives: the ar iterator, bufio, the six decompressor constructors, archive/tar, control.Unmarshal and Close are provenance-recording oracles; every iteration order of the member map is explored; decompressor table read from the interpreted package initialiser", "3.C14",
          "Format checks, codec wiring for all 36 encoding combinations, extension slicing, control lookup, untouched data stream, determinism and index completeness are decided on the scenario family; tar/decompressor behaviour is trusted."),
- "C15": ("other", AI + " of Ar.Next on a symbolic header (progress >= 60 bytes per member with size >= 0 on the path, header magic, short reads) and of the loader on scripted archives over every map iteration order (loop exit, determinism); fatal-call reachability; constant-index bounds", "3.C15",
+ "C15": ("other", AI + " of Ar.Next on a symbolic header (progress >= 60 bytes per member with size >= 0 on the path, header magic, short reads), of LoadAr/Next on 90 concrete archives, and of the loader on scripted archives over every map iteration order (loop exit, determinism); fatal-call reachability; constant-index bounds", "3.C15",
          "Termination bound and consistency clauses are decided for every header and every scripted archive; delivery of exactly size bytes on truncated input is not decided."),
  "C16": ("other", AI + " of CheckDebsig on scripted member maps (roles, decoys, both library verdicts) over every map iteration order, with Seek, io.MultiReader and CheckDetachedSignature as recording oracles; the loader interpreted on the same scenarios", "3.C16",
          "The wrapper obligations that turn the OpenPGP library's guarantee into the property are decided on the scenario family; the library is trusted."),
@@ -40,10 +40,10 @@ claimed = {
          "Decode table, decode/marshal/decode identity and text fixpoint, required/omitted handling, merge with the embedded Paragraph and absence of panics are decided on probes covering every supported kind and tag combination; probe values outside the tables are not."),
  "C17": ("other", AI + " of changelog.Parse / ParseOne with a scripted reader (all scripts up to 3 lines over 14 kinds, plus every single-line edit, truncation and missing final newline of well-formed changelogs), compared with a deb-changelog reference model", "3.C17",
          "Every entry field and the all-or-error verdict are decided on the script family; time.Parse is trusted."),
- "C18": ("other", "global-write scan, loop classification (counted / reader / cursor loops backed by the C01 and C04 explorations), index and slice range rules over canonical terms, fatal-call and type-assertion reachability, value-xor-error dataflow", "3.C18",
-         "Shared-state freedom, termination of every loop, in-range indexing, absence of explicit panics and the value-xor-error convention are decided for the repository's own code; the standard library and data races inside it are not."),
- "C10": ("other", "type-level struct-tag tables against Debian field tables; SSA rules on the list decoder; " + AI + " of line parsers and accessors", "3.C10",
-         "116 field instances and the decoder/accessor tables are decided exactly; equality with a document model for every document is not decided."),
+ "C18": ("other", "global-write scan, map-order rule, loop classification (counted / range / reader / descent loops; cursor loops backed by the C01 and C04 explorations), index and slice range rules over canonical terms with scenario-coverage fallback, fatal-call and type-assertion reachability, value-xor-error dataflow", "3.C18",
+         "Shared-state freedom, order independence of map walks, termination of every loop, in-range indexing, absence of explicit panics and the value-xor-error convention are decided for the repository's own code; the standard library and data races inside it are not."),
+ "C10": ("other", AI + " of Decoder.Decode (reflect model, reader oracle) on a document rendered from a model of every field of each document kind, compared field by field; type-level struct-tag tables against Debian field tables; interpreted tables of the line parsers, accessors and ParseControl", "3.C10",
+         "For each of the eight document types (and a probe embedding BestChecksums) the decoded value equals the model for a generated document covering every field kind; 116 tag instances and the accessor tables are decided exactly; other document models are not."),
 }
 
 not_built = "check not built yet in this commit (work in progress; DESIGN.md section 3 gives the planned static rules)"
